@@ -511,6 +511,30 @@ func forSpecials() []model.Stmt {
 		out = append(out, model.If{Conds: []model.Expr{lit(1)}, Bodies: [][]model.Stmt{{model.Assign{Name: "fs", E: model.ArrLit{Elems: []model.Expr{model.Lit{V: model.Float(1.5)}, model.Lit{V: model.Float(2.5)}}}},
 			step, model.Text{S: "|"}, step, model.Text{S: "|"}, model.Print{E: model.Var{Name: "fs"}}}}})
 	}
+	// the loop object is mentioned in one place only: the taken or untaken arm of a ternary, a condition,
+	// a call argument, an index, the header of an inner loop
+	lf := loopField
+	vv2 := model.Var{Name: "v"}
+	two := lit(2)
+	eq2 := model.Binary{Op: "==", L: vv2, R: two}
+	for _, only := range []model.Stmt{
+		model.Print{E: model.Ternary{C: eq2, A: lf("index"), B: lit(9)}},
+		model.Print{E: model.Ternary{C: eq2, A: lit(9), B: lf("iter")}},
+		model.Print{E: model.Ternary{C: lf("first"), A: lit(1), B: lit(0)}},
+		model.If{Conds: []model.Expr{lf("last")}, Bodies: [][]model.Stmt{{model.Text{S: "L"}}}, Else: []model.Stmt{model.Text{S: "-"}}},
+		model.If{Conds: []model.Expr{eq2}, Bodies: [][]model.Stmt{{model.Print{E: lf("index")}}}},
+		model.Print{E: model.Index{X: model.ArrLit{Elems: []model.Expr{lit(7), lit(8), lit(9)}}, I: lf("index")}},
+		model.Print{E: model.Call{X: model.StrLit{S: "ab"}, Name: "repeat", Args: []model.Expr{lf("iter")}}},
+		model.Print{E: model.Dot{X: model.ObjLit{Keys: []string{"k"}, Vals: []model.Expr{lf("index")}}, Name: "k"}},
+		model.Each{Var: "w", Arr: model.ArrLit{Elems: []model.Expr{lf("index"), lf("iter")}}, Body: []model.Stmt{model.Print{E: model.Var{Name: "w"}}}},
+		model.For{Init: &model.Assign{Name: "k", E: lf("index")}, Cond: model.Binary{Op: "<", L: model.Var{Name: "k"}, R: lit(3)}, Post: model.Print{E: model.Postfix{Op: "++", X: model.Var{Name: "k"}}}, Body: []model.Stmt{model.Print{E: model.Var{Name: "k"}}}},
+		model.Assign{Name: "saved", E: model.Ternary{C: eq2, A: lf("index"), B: lit(0)}},
+		model.BreakIf{E: model.Ternary{C: eq2, A: lf("last"), B: lf("last")}},
+	} {
+		out = append(out, model.Each{Var: "v", Arr: intArr(1, 2, 3), Body: []model.Stmt{model.Print{E: vv2}, model.Text{S: ":"}, only, model.Text{S: ","}}})
+		// as the inner loop of a nest: the inner loop object, never the outer one
+		out = append(out, model.Each{Var: "o", Arr: intArr(5, 6, 7), Body: []model.Stmt{model.Text{S: "<"}, model.Each{Var: "v", Arr: intArr(1, 2), Body: []model.Stmt{only, model.Text{S: ","}}}, model.Text{S: ">"}}})
+	}
 	// a float that is not a number is not 0.0: it is truthy in every loop condition
 	nan := model.Binary{Op: "/", L: model.Lit{V: model.Float(0)}, R: model.Lit{V: model.Float(0)}}
 	inf := model.Binary{Op: "/", L: model.Lit{V: model.Float(1)}, R: model.Lit{V: model.Float(0)}}
